@@ -856,9 +856,9 @@ def judge(case, eng: dict, models: Dict[str, list]) -> List[dict]:
                         "what": f"the engine's value is the left fold in physical order, not a function of the multiset of values ({site})",
                         "diff": _diff(e1[3], spec[3])})
             continue
-        if any(nested_bin(t) for _, t in case["stmts"]):
-            out.append({"key": "nested-dataset-operator:viral-of-nested-operand-ignored", "attr": attr,
-                        "what": f"the viral attribute {attr} of a dataset∘dataset operator used as an operand is ignored by the outer operator "
+        if any(nested_op(t) for _, t in case["stmts"]):
+            out.append({"key": "nested-operand:viral-of-nested-operand-ignored", "attr": attr,
+                        "what": f"the viral attribute {attr} of a dataset-level operator used as an operand is ignored by the outer operator "
                                 f"(its structure is rebuilt from identifiers and measures only): {_diff(e1[3], spec[3])}", "diff": _diff(e1[3], spec[3])})
             continue
         out.append({"key": f"disagree:{top_kind(case)}:{site}", "attr": attr,
